@@ -201,7 +201,33 @@ impl Property for C13 {
             }
         }
         let entries = underlying_entries(&base_abs, glob_rt.as_ref(), false, None);
-        let m = model(&entries, glob_rt.as_ref(), &layers_rt);
+        // the glob's own pruning is observed from a bare run (one probe, no layers) and validated
+        let observed = match &glob_rt {
+            None => None,
+            Some(g) => {
+                let cap0 = 20 * (entries.len() + 10);
+                match guard(|| run_stack(&base_given, &case.under, &[], WalkBehavior::default(), cap0)) {
+                    Ok(Ok(Some(o))) => {
+                        if o.capped || o.items.iter().any(|i| i.rel.is_none()) {
+                            return Err(format!("glob `{}`: the bare walk does not terminate or yields an error item on a fault-free tree", g.glob));
+                        }
+                        let fed: std::collections::BTreeSet<String> = o.logs.last().unwrap().iter().cloned().collect();
+                        if fed.len() != o.logs.last().unwrap().len() {
+                            return Err(format!("glob `{}`: the bare walk feeds an entry more than once: {:?}", g.glob, o.logs.last().unwrap()));
+                        }
+                        let yielded = o.items.iter().filter_map(|i| i.rel.clone()).collect();
+                        match observe(&entries, g, fed, yielded) {
+                            Ok(ob) => Some(ob),
+                            Err(m) => return Err(format!("{} [tree {:?}]", m, case.tree.nodes.iter().map(|n| n.path.as_str()).collect::<Vec<_>>())),
+                        }
+                    },
+                    Ok(Ok(None)) => return Ok(()),
+                    Ok(Err(_)) => return Ok(()),
+                    Err(msg) => return Err(format!("glob `{}`: the bare walk panicked: {}", g.glob, msg)),
+                }
+            },
+        };
+        let m = model_with(&entries, glob_rt.as_ref(), observed.as_ref(), &layers_rt);
         // tripwires
         let unprivileged = unsafe { libc::geteuid() } != 0;
         let mut armed = 0;
